@@ -14,11 +14,11 @@ PROP = dict(
     assumptions=["reference model = harness/pkg/server/gpql_model_test.go, grounded in docs/query-language.md",
                  "missing field: any error is accepted; if a result is returned the missing field counts as empty. Not without trackExistence must return an error (docs: 'requires').",
                  "open-ended time ranges (only from / only to) are generated only for quanta with a year view and assume the wall clock is later than 2019 (default to = now + 1 day)",
-                 "boolean results of writes are compared where the docs pin them down (not for Set with a timestamp, nor Clear on time fields: several views are written by one call)",
+                 "boolean results of writes are compared where the docs pin them down (not for Set with a timestamp: several views are written by one call)",
                  "Clear is not generated on noStandardView time fields (finding D22 of group gT); quantum 'H' alone is not generated (finding D21)"],
     tags=["gpql"],
     units=[
-        U("expr", "./server", "^TestVerifC15_Expr$", 200, 8000, timeout={"quick": 600, "thorough": 3000}),
-        U("writes", "./server", "^TestVerifC15_Writes$", 160, 6000, timeout={"quick": 600, "thorough": 3000}),
+        U("expr", "./server", "^TestVerifC15_Expr$", 200, 3000, timeout={"quick": 600, "thorough": 3000}),
+        U("writes", "./server", "^TestVerifC15_Writes$", 160, 2400, timeout={"quick": 600, "thorough": 3000}),
     ],
 )
